@@ -155,11 +155,136 @@ fn run_sched(args: &[String]) -> i32 {
     0
 }
 
+fn run_pipe(args: &[String]) -> i32 {
+    use vcore::pipe;
+    let prop = arg(args, "--prop").expect("--prop");
+    let tier_s = arg(args, "--tier").unwrap_or_else(|| "quick".into());
+    let tier = tier_of(&tier_s);
+    let shard = arg(args, "--shard").unwrap_or_else(|| "0/1".into());
+    let (si, sn) = shard.split_once('/').unwrap();
+    let (si, sn): (usize, usize) = (si.parse().unwrap(), sn.parse().unwrap());
+    let seed: usize = arg(args, "--seed").and_then(|s| s.parse().ok()).unwrap_or(0);
+    let out_path = arg(args, "--out").expect("--out");
+    let hb_path = arg(args, "--heartbeat");
+    let budget_s: f64 = arg(args, "--budget").and_then(|s| s.parse().ok()).unwrap_or(1e9);
+    let t0 = Instant::now();
+    let configs = families::family("verdict", tier);
+    let stacks = pipe::Stack::all();
+    let total_configs = configs.len();
+    let mut stats = ExploreStats::default();
+    let mut violations: Vec<serde_json::Value> = Vec::new();
+    let mut samples: Vec<serde_json::Value> = Vec::new();
+    let (mut done, mut skipped, mut capped) = (0usize, 0usize, 0usize);
+    let mut verdicts = [0usize; 2];
+    for (idx, cfg) in configs.iter().enumerate() {
+        if (idx + seed) % sn != si {
+            continue;
+        }
+        if t0.elapsed().as_secs_f64() > budget_s {
+            skipped += 1;
+            continue;
+        }
+        if let Some(hb) = &hb_path {
+            let _ = std::fs::write(hb, format!("verdict {idx}\n{}", cfg.name));
+        }
+        for (sidx, stack) in stacks.iter().enumerate() {
+            let make = |c: &Config| pipe::subject(c, *stack);
+            let mut found_here = 0usize;
+            let was_capped = stats.capped;
+            stats.capped = false;
+            exec::explore(cfg, &make, cfg.max_execs, &mut stats, &mut |tr| {
+                let res = pipe::take_result();
+                if let Some(f) = res.failed {
+                    verdicts[usize::from(f)] += 1;
+                }
+                for v in pipe::check(cfg, *stack, tr, &res) {
+                    if found_here < 1 && violations.len() < 400 {
+                        let sched = tr.schedule();
+                        let t2 = exec::execute(cfg, &make, &sched);
+                        let r2 = pipe::take_result();
+                        let stable = t2.outcome_hash() == tr.outcome_hash() && r2.failed == res.failed;
+                        let finding = findings::explain_pipe(cfg, tr, &v, *stack);
+                        violations.push(json!({
+                            "engine": "pipe",
+                            "property": prop,
+                            "family": "verdict",
+                            "index": idx,
+                            "stack_index": sidx,
+                            "stack": format!("{stack:?}"),
+                            "tier": tier_s,
+                            "config": cfg.describe(),
+                            "schedule": sched,
+                            "key": v.key,
+                            "message": v.msg,
+                            "finding": finding,
+                            "deterministic": stable,
+                            "trace": tr.render(),
+                            "counters": format!("{:?}", res.counters),
+                            "basic_out": res.basic_out,
+                            "libtest_out": res.libtest_out,
+                        }));
+                    }
+                    found_here += 1;
+                }
+                if samples.len() < 3 && tr.decisions.len() >= 2 {
+                    samples.push(json!({
+                        "config": cfg.name,
+                        "stack": format!("{stack:?}"),
+                        "schedule": tr.schedule(),
+                        "reported_failed": res.failed,
+                        "events": tr.events.iter().map(|e| e.ev.short()).collect::<Vec<_>>(),
+                    }));
+                }
+                true
+            });
+            if stats.capped {
+                capped += 1;
+            }
+            stats.capped |= was_capped;
+        }
+        done += 1;
+    }
+    let res = json!({
+        "property": prop, "tier": tier_s, "shard": shard,
+        "total_configs": total_configs, "configs_done": done, "configs_capped": capped,
+        "configs_skipped_budget": skipped,
+        "execs": stats.execs, "transitions": stats.transitions, "states": stats.states.len(),
+        "distinct_outcomes": stats.outcomes.len(), "max_decisions": stats.max_decisions,
+        "details": {"writer_stacks": stacks.len(), "verdict_ok": verdicts[0], "verdict_failed": verdicts[1]},
+        "violations": violations, "samples": samples, "wall_s": t0.elapsed().as_secs_f64(),
+    });
+    std::fs::write(&out_path, serde_json::to_string_pretty(&res).unwrap()).unwrap();
+    0
+}
+
 fn run_replay(args: &[String]) -> i32 {
     let file = arg(args, "--file").expect("--file");
     let text = std::fs::read_to_string(&file).expect("read replay");
     let j: serde_json::Value = serde_json::from_str(&text).expect("json");
     let engine = j["engine"].as_str().unwrap_or("sched");
+    if engine == "pipe" {
+        use vcore::pipe;
+        let idx = j["index"].as_u64().unwrap() as usize;
+        let sidx = j["stack_index"].as_u64().unwrap() as usize;
+        let tier = tier_of(j["tier"].as_str().unwrap_or("quick"));
+        let sched: Vec<usize> =
+            j["schedule"].as_array().unwrap().iter().map(|x| x.as_u64().unwrap() as usize).collect();
+        let cfgs = families::family("verdict", tier);
+        let cfg = &cfgs[idx];
+        let stack = pipe::Stack::all()[sidx];
+        println!("{}stack: {stack:?}", cfg.describe());
+        let tr = exec::execute(cfg, &|c: &Config| pipe::subject(c, stack), &sched);
+        let res = pipe::take_result();
+        for l in tr.render() {
+            println!("  {l}");
+        }
+        println!("reported failed: {:?} counters {:?}\n--- basic\n{}--- libtest\n{}", res.failed, res.counters, res.basic_out, res.libtest_out);
+        let vs = pipe::check(cfg, stack, &tr, &res);
+        for v in &vs {
+            println!("violation {} [{}]: {}", v.prop, v.key, v.msg);
+        }
+        return i32::from(!vs.is_empty());
+    }
     if engine != "sched" {
         return vcore::hist::replay(&j);
     }
@@ -198,6 +323,7 @@ fn main() {
     let args: Vec<String> = std::env::args().collect();
     let code = match args.get(1).map(String::as_str) {
         Some("sched") => run_sched(&args),
+        Some("pipe") => run_pipe(&args),
         Some("hist") => vcore::hist::run(&args),
         Some("replay") => run_replay(&args),
         Some("count") => {
